@@ -127,6 +127,23 @@ macro_rules! tryv {
 
 fn exec_inner(root: &VfsPath, dest_root: &VfsPath, op: &Op) -> Outcome {
     let p = tryv!(at(root, op.target()), "join");
+    let dp = match op.dest() {
+        Some(d) => Some(tryv!(at(dest_root, d), "join")),
+        None => None,
+    };
+    exec_on_inner(&p, dp.as_ref(), op)
+}
+
+/// Execute `op` on already-built paths (the strings inside `op` are only used for rendering).
+pub fn exec_on(p: &VfsPath, dp: Option<&VfsPath>, op: &Op) -> Outcome {
+    match guarded(|| exec_on_inner(p, dp, op)) {
+        Ok(o) => o,
+        Err(m) => Outcome::Panic(m),
+    }
+}
+
+fn exec_on_inner(p: &VfsPath, dp: Option<&VfsPath>, op: &Op) -> Outcome {
+    let missing_dest = || Outcome::Err(ErrInfo { class: ErrClass::Other, path: String::new(), display: "no destination".into(), kind_dbg: String::new(), stage: "join" });
     match op {
         Op::CreateDir(_) => {
             tryv!(p.create_dir(), "call");
@@ -164,10 +181,10 @@ fn exec_inner(root: &VfsPath, dest_root: &VfsPath, op: &Op) -> Outcome {
             }
             Outcome::Ok(Val::Bytes(Arc::new(v)))
         }
-        Op::ReadDir(path) => {
+        Op::ReadDir(_) => {
             let it = tryv!(p.read_dir(), "call");
             let mut names = BTreeSet::new();
-            let prefix = format!("{}/", path);
+            let prefix = format!("{}/", p.as_str());
             for c in it {
                 let s = c.as_str().to_string();
                 let name = if s.starts_with(&prefix) { s[prefix.len()..].to_string() } else { format!("<<foreign:{}>>", s) };
@@ -204,23 +221,23 @@ fn exec_inner(root: &VfsPath, dest_root: &VfsPath, op: &Op) -> Outcome {
             }
             Outcome::Ok(Val::Walk(out))
         }
-        Op::CopyFile(_, d) => {
-            let dp = tryv!(at(dest_root, d), "join");
-            tryv!(p.copy_file(&dp), "call");
+        Op::CopyFile(..) => {
+            let Some(dp) = dp else { return missing_dest() };
+            tryv!(p.copy_file(dp), "call");
             Outcome::Ok(Val::Unit)
         }
-        Op::MoveFile(_, d) => {
-            let dp = tryv!(at(dest_root, d), "join");
-            tryv!(p.move_file(&dp), "call");
+        Op::MoveFile(..) => {
+            let Some(dp) = dp else { return missing_dest() };
+            tryv!(p.move_file(dp), "call");
             Outcome::Ok(Val::Unit)
         }
-        Op::CopyDir(_, d) => {
-            let dp = tryv!(at(dest_root, d), "join");
-            Outcome::Ok(Val::Count(tryv!(p.copy_dir(&dp), "call")))
+        Op::CopyDir(..) => {
+            let Some(dp) = dp else { return missing_dest() };
+            Outcome::Ok(Val::Count(tryv!(p.copy_dir(dp), "call")))
         }
-        Op::MoveDir(_, d) => {
-            let dp = tryv!(at(dest_root, d), "join");
-            tryv!(p.move_dir(&dp), "call");
+        Op::MoveDir(..) => {
+            let Some(dp) = dp else { return missing_dest() };
+            tryv!(p.move_dir(dp), "call");
             Outcome::Ok(Val::Unit)
         }
         Op::SetTime(_, f, s, n) => {
